@@ -9,8 +9,12 @@ import (
 
 type enc struct{ b strings.Builder }
 
-func (e *enc) i(v int64) *enc  { e.b.WriteString(strconv.FormatInt(v, 10)); e.b.WriteByte(' '); return e }
-func (e *enc) n(v int) *enc    { return e.i(int64(v)) }
+func (e *enc) i(v int64) *enc {
+	e.b.WriteString(strconv.FormatInt(v, 10))
+	e.b.WriteByte(' ')
+	return e
+}
+func (e *enc) n(v int) *enc { return e.i(int64(v)) }
 func (e *enc) bool(v bool) *enc {
 	if v {
 		return e.i(1)
